@@ -193,9 +193,12 @@ def lean_val(j) -> str:
 
 
 def _sample_values():
+    from fileformats import field
     from pydra.utils.typing import MultiInputObj
 
+    I, D, T, B = field.Integer, field.Decimal, field.Text, field.Boolean
     return [
+        I(3), I(0), I(-3), D(2.0), D(0.0), T("a"), T("a'b"), T(""), B(True), B(False), [I(3), T("a"), D(2.0), B(False)], {I(3), I(3)},
         None, True, False, 0, 5, -3, 300, 2.0, "", "abc", "a'b", "a/b", "a//b/", b"ab", b"", PosixPath("a/b"), PosixPath("."),
         [], [1, 2], ["a", "b"], [1, 300], [[1]], [1, True, 1.0, 2], [True, 0], [1.0], [PosixPath("x"), "it's", None, 2.0, b"q", (1, "a")],
         (1, 2), (), ("a",), {1, 2}, frozenset({1}), {"a": 1}, {}, {1: "x", 2: [1]}, MultiInputObj([1]), range(3),
